@@ -35,6 +35,7 @@ func runC06(p *eng.Prog, r *eng.Report, tier string) {
 	serveWait(c, "C06.9")
 	serveLockWait(c, "C06.14")
 	callerAttrsCopied(c, "C06.15")
+	waitBoundedByDeadline(c, "C06.21", "ibb", 1)
 	idTypFromOwnAttributes(c, "C06.16")
 	pageTurnClosesFirst(c, "C06.17")
 	c.r.Floor("C06.20", "children of a stanza picked by local name in the handlers", iterChildSelectedByNamespace(c, "C06.20", func(f *eng.Fn) bool { return strings.HasPrefix(f.Short, "receipts.") }), 2)
